@@ -33,3 +33,24 @@ package ast
 //@   modifies $pooled
 //@   ensures (r1 == nil && self != nil && self.t & _V_RAW == 0) ==> !$pooled[base(r0)]
 //@   ensures sync.poolWF()
+
+// ---- chunked child storage (C14, C15): linkedNodes as a sequence.
+// Element i lives in head[i] for i < 16, else in chunk tail[i/16-1] at i%16.
+//@ pure func lnAt(ln *linkedNodes, i int) Node = ite(i < 16, ln.head[i], (*ln.tail[i / 16 - 1])[i % 16])
+//@ pure func lnWF(ln *linkedNodes) bool = ln != nil && 0 <= ln.size && ln.size <= (len(ln.tail) + 1) * 16 && len(ln.tail) <= 8796093022208 && (forall a int :: (0 <= a && a < len(ln.tail) && (a + 1) * 16 < ln.size) ==> ln.tail[a] != nil)
+
+// At: the address of element i of the sequence, nil exactly when i is out of [0, size).
+//@ func (*linkedNodes).At inline props C14,C15
+//@   requires self == nil || lnWF(self)
+//@   ensures (self == nil || i < 0 || i >= self.size) ==> result == nil
+//@   ensures (self != nil && 0 <= i && i < self.size) ==> result != nil
+//@   ensures (self != nil && 0 <= i && i < self.size) ==> same(*result, lnAt(self, i))
+
+//@ func (*linkedNodes).Len props C14,C15
+//@   ensures self == nil ==> result == 0
+//@   ensures self != nil ==> result == self.size
+
+//@ func (*linkedNodes).Cap props C14,C15
+//@   requires self == nil || len(self.tail) <= 8796093022208
+//@   ensures self == nil ==> result == 0
+//@   ensures self != nil ==> result == (len(self.tail) + 1) * 16
